@@ -13,6 +13,9 @@ pub struct History {
     pub diff_pool: Vec<String>,
     pub diff_ns: Vec<(String, String)>,
     pub diff_each: bool,
+    /// clauses of listed state-based findings that were not judged in the run (world::Cfg::gates);
+    /// kept in the replay file so that a replay judges exactly what the run judged
+    pub gates: Vec<String>,
     pub steps: Vec<Step>,
     /// (step index, clause, detail) recorded when the violation was found
     pub expect: Option<(usize, String, String, String)>,
@@ -30,7 +33,7 @@ pub struct RunResult {
 
 impl History {
     pub fn cfg(&self) -> Cfg {
-        Cfg { limit: 2000, c15_each: true, c14_diff_each: self.diff_each, diff_pool: self.diff_pool.clone(), diff_ns: self.diff_ns.clone(), gates: vec![] }
+        Cfg { limit: 2000, c15_each: true, c14_diff_each: self.diff_each, diff_pool: self.diff_pool.clone(), diff_ns: self.diff_ns.clone(), gates: self.gates.clone() }
     }
 
     /// Execute the history from scratch against the real library.
@@ -83,6 +86,9 @@ impl History {
         for q in &self.diff_pool {
             s.push_str(&format!("pool {}\n", enc(q)));
         }
+        for g in &self.gates {
+            s.push_str(&format!("not_judged {}\n", g));
+        }
         for st in &self.steps {
             s.push_str(&st.to_line());
             s.push('\n');
@@ -102,6 +108,7 @@ impl History {
             diff_pool: vec![],
             diff_ns: vec![],
             diff_each: false,
+            gates: vec![],
             steps: vec![],
             expect: None,
         };
@@ -135,6 +142,7 @@ impl History {
                     let u = dec(it.next().unwrap_or("%")).ok_or("bad ns")?;
                     h.diff_ns.push((p, u));
                 }
+                Some("not_judged") => h.gates.push(it.next().unwrap_or("").to_string()),
                 Some("pool") => h.diff_pool.push(dec(it.next().unwrap_or("%")).ok_or("bad pool")?),
                 Some("step") => match Step::from_line(l) {
                     Some(s) => h.steps.push(s),
